@@ -45,14 +45,16 @@ Definition mlsx_facts (st : option stats) (kind : Z) : list (text * text) :=
 Definition build_mlsx_string (st : option stats) (kind : Z) (name : text) : text :=
   flat_map (fun kv => fst kv ++ [EQ] ++ snd kv ++ [SEMI]) (mlsx_facts st kind) ++ [SP] ++ name.
 
-(* Client.parse_mlsx_line -> (name, entry) *)
-Definition parse_mlsx_line (s : text) : text * list (text * text) :=
+(* Client.parse_mlsx_line -> (name, entry); ValueError when the line has no SP or nothing after it
+   (since the fix "listing lines without a name or without a type are reported as ValueError") *)
+Definition parse_mlsx_line (s : text) : res (text * list (text * text)) :=
   let line := rstrip s in
-  let '(facts_found, _, name) := partition SP line in
+  let '(facts_found, sep, name) := partition SP line in
+  if negb sep || (match name with [] => true | _ => false end) then Err E_VALUE else
   let entry :=
     fold_left (fun e fact => let '(key, _, value) := partition EQ fact in dict_set (lower key) value e)
               (split_on SEMI (removelast facts_found)) [] in
-  (name, entry).
+  Ok (name, entry).
 
 (* ---- stat.filemode ---- *)
 Definition filetype_char (mode : Z) : Z :=
@@ -150,6 +152,7 @@ Definition parse_list_line_unix (half two_years : Z) (now : dt) (b : text) : res
       | None => Err E_VALUE
       | Some modify =>
           let s5 := strip (skipn 12 s4) in
+          match s5 with [] => Err E_VALUE | _ =>      (* if not s: raise ValueError("no name column") *)
           if text_eqb ty t_link then
             match rfind_sub ARROW s5 with
             | None => Err E_VALUE
@@ -170,6 +173,7 @@ Definition parse_list_line_unix (half two_years : Z) (now : dt) (b : text) : res
                 end
             end
           else Ok (s5, mklinfo ty mode links owner grp size modify None)
+          end
       end)))))
   end.
 
@@ -188,11 +192,9 @@ Definition list_lines (half off now : Z) (dir : list dentry) : list text :=
                      | None => []
                      end) dir.
 
-(* Client.list(): parse each line, skip "." and ".." *)
 Definition DOT : text := [46].
 Definition DOTDOT : text := [46; 46].
-Definition client_mlsd (lines : list text) : list (text * list (text * text)) :=
-  filter (fun r => negb (text_eqb (fst r) DOT || text_eqb (fst r) DOTDOT)) (map parse_mlsx_line lines).
+(* the client's lister loop is Model/ListingClient.v (client_collect) *)
 
 (* ---------------- harness interface ---------------- *)
 Definition sx_of_res {A} (f : A -> sx) (r : res A) : sx :=
@@ -230,7 +232,7 @@ Definition run_listing (fn : Z) (a : sx) : sx :=
   | 12 => sx_of_text (format_mlsx_time (z 0%nat))
   | 13 => sx_of_option sx_of_dt (strptime (fmt_of (z 0%nat)) (t 1%nat))
   | 20 => sx_of_text (build_mlsx_string (opt_stats_of_sx (nth_sx 0 a)) (z 1%nat) (t 2%nat))
-  | 21 => let '(name, e) := parse_mlsx_line (t 0%nat) in L [sx_of_text name; L (map sx_of_kv e)]
+  | 21 => sx_of_res (fun r => L [sx_of_text (fst r); L (map sx_of_kv (snd r))]) (parse_mlsx_line (t 0%nat))
   | 22 => sx_of_text (build_list_string (z 0%nat) (z 1%nat) (z 2%nat)
                                         (stats_of_sx (nth_sx 3 a)) (t 4%nat))
   | 23 => sx_of_res sx_of_linfo
